@@ -498,6 +498,12 @@ class IArr(IdxND):
     def __pow__(self, k):
         if k == 2:
             return self * self
+        if k == 1:
+            return self
+        if k == 0.5 and not is_cplx(self.dtype):
+            # x ** 0.5 of a REAL array: the non-negative root for x >= 0, NaN for x < 0 -- the atom rsqrt, of which only rsqrt(x)^2 = x (x >= 0) is known
+            from vcgen import kidx
+            return IArr(self.shape, lambda *ix: [Ent([], kidx.RSQRT(ents_expr(self.fn(*ix))))], self.dtype)
         raise Unsupported("power")
 
     def __truediv__(self, o):
